@@ -149,6 +149,14 @@ static bool apply(Universe &U, const hx::Sexp &op, bool &known)
         U.addr[i] = fresh.get();
         return true;
     }
+    if (h == "cl") {
+        // Model::clone() / Component::clone() on whatever state the history has reached (equivalences with variables that
+        // no component owns included): must return, and changes nothing
+        size_t i = num(op[1]);
+        if (i < 2) return U.m[i]->clone() != nullptr;
+        auto c = comp(U, i);
+        return c != nullptr && c->clone() != nullptr;
+    }
     if (h == "rc") { auto ce = entityOf(U, num(op[1])); return ce != nullptr && ce->replaceComponent(num(op[2]), comp(U, num(op[3]))); }
     if (h == "ru") { auto m = model(U, num(op[1])); return m != nullptr && m->replaceUnits(num(op[2]), units(U, num(op[3]))); }
     known = false;
